@@ -159,6 +159,38 @@ Section Projection.
   Definition list_is_in tol proj rs axis1 (m : list (list A)) : pres bool :=
     pbind (list_project proj rs axis1 m) (fun q => POk (linf_le_mat tol q m)).
 
+
+  (* ---- the regions as the classes store them -------------------------------------------------- *)
+  (* HalfSpace keeps normal/|normal| and offset/|normal| and projects with those; Slice holds two such half spaces; List holds
+     the projections of its regions, the axis and the shape.  Proofs/GenProjection.v: the definitions regenerated from
+     projection.py (Gen/Projection.v) equal these, and these equal the square-root-free model above over the reals. *)
+  Definition half_stored_project (n : list A) (off sg : A) (p : list A) : pres (list A) :=
+    if Nat.eqb (length p) (length n) then
+      POk (if half_viol n off sg p then vadd p (map (fun x => x * (off - dot n p)) n) else p)
+    else PValueError.
+  Definition half_stored_init (nrm : list A -> A) (n : list A) (off sg : A) : pres (list A * A * A) :=
+    if sg =? n0 then PValueError else POk (map (fun x => x / nrm n) n, off / nrm n, sg).
+  Definition slab_stored_project (tol : A) (ln : list A) (lo ls : A) (hn : list A) (ho hs : A) (p : list A) : pres (list A) :=
+    pbind (is_in_of tol (half_stored_project ln lo ls) p) (fun inlow =>
+      if inlow then half_stored_project hn ho hs p else half_stored_project ln lo ls p).
+  Definition slab_stored_is_in (tol : A) (ln : list A) (lo ls : A) (hn : list A) (ho hs : A) (p : list A) : pres bool :=
+    pbind (is_in_of tol (half_stored_project ln lo ls) p) (fun a =>
+      if a then is_in_of tol (half_stored_project hn ho hs) p else POk false).
+  Definition slab_stored_init (nrm : list A -> A) (n : list A) (lw hg : A) :=
+    if hg <? lw then PValueError else
+    pbind (half_stored_init nrm n lw n1) (fun lo => pbind (half_stored_init nrm n hg (- n1)) (fun hi => POk (lo, hi))).
+  (* the generated loop runs on explicit fuel; the model's own fuel is S maxiter *)
+  Definition dykstra_fuel (pa pb : list A -> pres (list A)) (ia ib : list A -> pres bool) (maxiter fuel : nat) (point : list A) :=
+    dykstra pa pb ia ib maxiter point.
+  Definition inter_project_fuel (pa pb : list A -> pres (list A)) (ia ib : list A -> pres bool) (maxiter fuel : nat) (p : list A) :=
+    inter_project pa pb ia ib maxiter p.
+  Definition list_stored_project (projs : list (list A -> pres (list A))) (axis : nat) (shape : nat * nat)
+      (m : list (list A)) : pres (list (list A)) :=
+    if mshape_ok (fst shape) (snd shape) m then
+      if Nat.eqb axis 0 then pmap2 (fun f r => f r) projs m
+      else pbind (pmap2 (fun f r => f r) projs (transpose (snd shape) m)) (fun t => POk (transpose (fst shape) t))
+    else PValueError.
+
   (* ---- device level ----------------------------------------------------------------------------- *)
   (* what projection looks at in a device tree: an atomic device's bounds table; a set's children; a multi-flow
      adaptor's wrapped bounds table and number of conduits *)
